@@ -158,6 +158,10 @@ Definition rat (pl : placement) (pts : list pt) : list pt :=
 (* ---------- the convex_hull wrapper of utils.cpp ---------- *)
 Definition cross (o a b : pt) : Q :=
   qsub (qmul (qsub (fst a) (fst o)) (qsub (snd b) (snd o))) (qmul (qsub (snd a) (snd o)) (qsub (fst b) (fst o))).
+(* sign of [cross o a b], computed on normalised differences (cheaper; same value: cross_sign_eq) *)
+Definition cross_sign (o a b : pt) : comparison :=
+  qcmp (qmul (qn (qsub (fst a) (fst o))) (qn (qsub (snd b) (snd o))))
+       (qmul (qn (qsub (snd a) (snd o))) (qn (qsub (fst b) (fst o)))).
 Definition pt_eqb (a b : pt) : bool := qeqb (fst a) (fst b) && qeqb (snd a) (snd b).
 
 Definition same_x (pts : list pt) : bool :=
@@ -167,7 +171,7 @@ Definition collinearb (pts : list pt) : bool :=
   | [] => true
   | a :: t => match find (fun b => negb (pt_eqb a b)) t with
               | None => true
-              | Some b => forallb (fun c => qeqb (cross a b c) 0) t
+              | Some b => forallb (fun c => match cross_sign a b c with Eq => true | _ => false end) t
               end
   end.
 
@@ -320,7 +324,7 @@ Definition sort_pts (l : list pt) : list pt := fold_right insert_pt [] l.   (* s
 Fixpoint pop_while (stack : list pt) (p : pt) : list pt :=
   match stack with
   | a :: t => match t with
-              | o :: _ => match qcmp (cross o a p) 0 with Gt => stack | _ => pop_while t p end
+              | o :: _ => match cross_sign o a p with Gt => stack | _ => pop_while t p end
               | [] => stack
               end
   | [] => stack
@@ -334,17 +338,58 @@ Definition hull_mc (pts : list pt) : list pt :=
          rev (tl lower) ++ rev (tl upper)
   end.
 
-(* canonical text side: sorted distinct grid points *)
-Definition round_pt (p : pt) : Z * Z := (grid_round (fst p), grid_round (snd p)).
-Definition zpt_ltb (a b : Z * Z) : bool :=
+(* ---------- canonical text of a hull (both sides of the correspondence print this): round the points to
+   the 2^-20 grid, take the strictly convex hull of the grid points (exact integer arithmetic), drop corners
+   that are within 8 grid units of the chord of their neighbours (first such corner in order, repeated), sort.
+   This makes the text insensitive to 1e-16 perturbations (cos(pi/2) = 6e-17 in the implementation keeps or
+   drops collinear points differently from exact arithmetic). ---------- *)
+Definition zpt : Type := (Z * Z)%type.
+Definition round_pt (p : pt) : zpt := (grid_round (fst p), grid_round (snd p)).
+Definition zpt_ltb (a b : zpt) : bool :=
   match Z.compare (fst a) (fst b) with Lt => true | Gt => false | Eq => Z.ltb (snd a) (snd b) end.
-Fixpoint insert_zpt (p : Z * Z) (l : list (Z * Z)) : list (Z * Z) :=
+Fixpoint insert_zpt (p : zpt) (l : list zpt) : list zpt :=
   match l with
   | [] => [p]
   | a :: t => if zpt_ltb p a then p :: l
               else if Z.eqb (fst p) (fst a) && Z.eqb (snd p) (snd a) then l else a :: insert_zpt p t
   end.
-Definition canon_pts (l : list pt) : list (Z * Z) := fold_right insert_zpt [] (map round_pt l).
+Definition sort_zpts (l : list zpt) : list zpt := fold_right insert_zpt [] l.
+Definition zcross (o a b : zpt) : Z :=
+  ((fst a - fst o) * (snd b - snd o) - (snd a - snd o) * (fst b - fst o))%Z.
+Fixpoint zpop_while (stack : list zpt) (p : zpt) : list zpt :=
+  match stack with
+  | a :: t => match t with
+              | o :: _ => if (0 <? zcross o a p)%Z then stack else zpop_while t p
+              | [] => stack
+              end
+  | [] => stack
+  end.
+Definition zchain (l : list zpt) : list zpt := fold_left (fun st p => p :: zpop_while st p) l [].
+Definition zhull (s : list zpt) : list zpt :=        (* s sorted, distinct; result counter-clockwise *)
+  match s with
+  | [] | [_] => s
+  | _ => rev (tl (zchain s)) ++ rev (tl (zchain (rev s)))
+  end.
+Definition znear (a v b : zpt) : bool :=
+  (Z.abs (zcross a v b) <=? 8 * Z.max (Z.abs (fst b - fst a)) (Z.abs (snd b - snd a)))%Z.
+Fixpoint zscan (prev first : zpt) (l acc_rev : list zpt) : option (list zpt) :=
+  match l with
+  | [] => None
+  | v :: t => let next := match t with n :: _ => n | [] => first end in
+              if znear prev v next then Some (rev acc_rev ++ t) else zscan v first t (v :: acc_rev)
+  end.
+Definition zprune_once (V : list zpt) : option (list zpt) :=
+  match V with [] => None | v0 :: _ => zscan (last V v0) v0 V [] end.
+Fixpoint zprune (fuel : nat) (V : list zpt) : list zpt :=
+  match fuel with
+  | O => V
+  | S f => if Nat.leb (length V) 2 then V
+           else match zprune_once V with None => V | Some V' => zprune f V' end
+  end.
+Definition canon_pts (l : list pt) : list zpt :=
+  let s := sort_zpts (map round_pt l) in
+  let h := zhull s in
+  sort_zpts (zprune (length h) h).
 
 (* ---------- the proposed repair of the collinear fallback (F10): return the two extreme INPUT points
    (lexicographic minimum and maximum) instead of the corners of the bounding box ---------- *)
